@@ -118,6 +118,9 @@ SPECS = (
     H("c10::bfp_raw_plumbing", "C10.K.bfp.raw_plumbing", "BLS Fp raw (de)serialisation: wrong lengths rejected, limbs are the LE words, to_raw_bytes inverts",
       ["curves/src/bls12_381/fp.rs::Fp::from_raw_bytes", "curves/src/bls12_381/fp.rs::Fp::from_raw_bytes_unchecked", "curves/src/bls12_381/fp.rs::Fp::to_raw_bytes"],
       "slice lengths 0..=56, all contents", "bls12_381::Fp::raw-plumbing", est=20),
+    H("c10::bfp2_from_repr_total", "C10.K.bfp2.from_repr.total",
+      "BLS Fp2::from_repr is total: Some exactly when both halves are below p, never a panic",
+      ["curves/src/bls12_381/g2.rs::<Fp2 as PrimeField>::from_repr"], "all 2^768 byte strings", "bls12_381::Fp2::from_repr:panics-on-noncanonical", est=15),
 ])
 
 
